@@ -6,7 +6,7 @@ import itertools
 
 from .. import automata as A
 from .. import e1, impl, refmodel
-from ..chartgen import mk
+from ..chartgen import UNICODE_TRAPS, mk
 from ..linelang import BL
 
 ID = "C10"
@@ -56,6 +56,7 @@ def plan(tier, seed):
     shards = [("pairs", i) for i in range(24)] + [("inclusion",)]
     shards += [("subsets", 0), ("subsets", 1), ("subsets", 2), ("subsets", 3)]
     shards += [("values", f, L) for f in STRING_FIELDS]
+    shards += [("twice", i) for i in range(4)]
     shards += [("adversarial",), ("samevalue", 0), ("samevalue", 1), ("samevalue", 2)]
     return dict(shards=shards, bounds=dict(alphabet_size=len(A.SIGMA), value_length=L, subset_size=2), budget_s=900)
 
@@ -105,6 +106,8 @@ def run_shard(shard, ctx):
         _values(ctx, shard[1], shard[2])
     elif kind == "samevalue":
         _samevalue(ctx, shard[1])
+    elif kind == "twice":
+        _twice(ctx, shard[1])
     else:
         _adversarial(ctx)
 
@@ -215,6 +218,25 @@ def _samevalue(ctx, part):
             check_song(ctx, b, "field %s = %r right after a chart with %s = %r" % (g, v, f, v))
 
 
+def _twice(ctx, part):
+    """A field written twice: its FIRST line decides, wherever the lines of the other fields sit. Every arrangement
+    of {first copy, second copy, Resolution, one other field} for every field and three kinds of neighbour."""
+    for k, f in enumerate(ALL_FIELDS):
+        if k % 4 != part:
+            continue
+        for g in ("Offset", "Artist", "Player2", "Resolution"):
+            if g == f:
+                continue
+            ctx.node()
+            if f == "Resolution":
+                lines = ["Resolution = 192", "Resolution = 480", canon(g, 4), canon("Genre" if g != "Genre" else "Year", 6)]
+            else:
+                second = canon(f, 2) if f != "Player2" else "Player2 = bass"
+                lines = [canon(f, 1), second, canon(g, 4)] + (["Resolution = 192"] if g != "Resolution" else ['Album = "x"'])
+            for o in itertools.permutations(range(len(lines))):
+                check_song(ctx, [lines[i] for i in o], "field %s given twice (arrangement %r with %s)" % (f, o, g))
+
+
 def _adversarial(ctx):
     for f in STRING_FIELDS:
         others = [g for g in ALL_FIELDS if g != f]
@@ -224,7 +246,7 @@ def _adversarial(ctx):
             check_song(ctx, ["Resolution = 192", '%s = "%s"' % (f, v)], "value of %s is the line of %s" % (f, g))
             if g != "Resolution":
                 check_song(ctx, ['%s = "%s"' % (f, v), "Resolution = 192", canon(g, 5)], "value of %s is the line of %s, followed by the real line" % (f, g))
-        for v in (" lead", "trail ", " both ", '""', '"q"', 'a""b', "x = y", f + " = z", "日本 ♪", "tab\tin", "a\ufeffb", "\ufeff", "\ufeffx\ufeff", "x\u00a0y", "\u200b", "日\u3000本", "e\u0301", "\U0001f3b8"):
+        for v in (" lead", "trail ", " both ", '""', '"q"', 'a""b', "x = y", f + " = z", "日本 ♪", "tab\tin", "a\ufeffb", "\ufeff", "\ufeffx\ufeff", "x\u00a0y", "\u200b", "日\u3000本", "e\u0301", "\U0001f3b8") + UNICODE_TRAPS:
             check_song(ctx, ["Resolution = 192", '%s = "%s"' % (f, v)], "adversarial value %r of %s" % (v, f))
     for f in INT_FIELDS:
         for v in ("0", "00", "7", "007", "99999999", "123456789012345678901234"):
